@@ -10,10 +10,13 @@
 //!     says, so every interleaving of the two endpoints AT POLL GRANULARITY is reachable.
 //!       M  tx.modify(|slot| slot.get_or_insert_default().push(tag))   tag = number of M's before it
 //!       N  tx.modify(|_slot| {})                                      a closure that changes nothing
+//!       K  tx.modify(|slot| *slot = None)                                 a closure that clears the slot (retracts)
 //!       D  drop(tx)
 //!       P  poll the recv future (created first if none is alive)
 //!       C  drop the pending recv future (cancel)
 //!       R  drop(rx)   (only when no recv future is alive)
+//!       T  rx.try_recv()   (only when no recv future is alive; hook H7b runs the verbatim body of try_recv,
+//!          checks/c19.py pins that the real method still has exactly that body)   obs: tn / t<tags>
 //!     obs: k = Ok, e = Err(SendError), u = (), p = Poll::Pending, rn = Ready(None),
 //!          r<t>.<t>... = Ready(Some(vec![t, ...])) (hex tags); wakes = cumulative number of
 //!          Waker::wake calls seen by the counting waker (hex).
@@ -39,10 +42,14 @@
 //!       cluster and issues <concurrent> Session::refresh_metadata calls at once.
 //!       mode 1: the consumer (cluster worker) is kept busy by a slow address translator while 3..5 refreshes are
 //!       served back to back, so that several full fetches with response channels are merged in the slot.
-//!       | <asked>/<answered>/<ok>/<nodes the session's cluster state shows>/<nodes of the mock>/<answered together>,...
+//!       mode 3: like mode 1, but Session::use_keyspace calls alternate with the refreshes (the select loop of the
+//!       cluster worker: both request kinds queue up while an update is applied; each must be answered once).
+//!       mode 2: the next 1..3 metadata reads fail (error reply, or the connection is cut inside the reply) while the
+//!       refreshes are pending; afterwards one more refresh must succeed.
+//!       | <asked>/<answered>/<ok>/<nodes the session's cluster state shows>/<nodes of the mock>/<answered together>/<final refresh ok (+2: faults left over)>,...
 //!       (a scenario with an unexpected outcome is repeated once; set-up failures are reported as skip-env)
 use scylla::client::session_builder::SessionBuilder;
-use scylla::cluster::metadata::verif_merge_channel as hook;
+use scylla::cluster::metadata::verif_merge_channel_b as hook;
 use scylla::cluster::metadata::verif_metadata_update as uhook;
 use vh::mocknode as mock;
 use std::future::Future;
@@ -133,12 +140,14 @@ fn run_script(script: &str, eager: bool) -> String {
     }
     for (i, op) in script.chars().enumerate() {
         let tok: String = match op {
-            'M' | 'N' => match tx.as_mut() {
+            'M' | 'N' | 'K' => match tx.as_mut() {
                 Some(t) => {
                     let r = if op == 'M' {
                         let tag = next_tag;
                         next_tag += 1;
                         t.modify(|slot| slot.get_or_insert_default().push(tag))
+                    } else if op == 'K' {
+                        t.modify(|slot| *slot = None)
                     } else {
                         t.modify(|_slot| {})
                     };
@@ -184,6 +193,17 @@ fn run_script(script: &str, eager: bool) -> String {
                 }
                 ex!().fut = None;
                 "u".into()
+            }
+            'T' => {
+                if ex!().fut.is_some() || !rx_alive {
+                    err = Some(format!("error unavailable op T at {}", i));
+                    break;
+                }
+                // SAFETY: no future borrows the receiver
+                match unsafe { (*rx_ptr).try_recv() } {
+                    None => "tn".into(),
+                    Some(l) => format!("t{}", l.iter().map(|t| format!("{:x}", t)).collect::<Vec<_>>().join(".")),
+                }
             }
             'R' => {
                 if ex!().fut.is_some() || !rx_alive {
@@ -431,7 +451,9 @@ impl scylla::policies::address_translator::AddressTranslator for SlowTranslator 
 
 /// Err(reason) = the scenario could not be set up (environment); Ok(tokens) otherwise.
 async fn run_e2e_once(serial: u64, rounds: usize, concurrent: usize, mode: u64) -> Result<(String, bool), String> {
-    let spec = mock::ClusterSpec::uniform("c19", &[("dc1", 1)], 1, 4, 2).with_keyspace(mock::KeyspaceDef::simple("ks", 1));
+    let spec = mock::ClusterSpec::uniform("c19", &[("dc1", 1)], 1, 4, 2)
+        .with_keyspace(mock::KeyspaceDef::simple("ks", 1))
+        .with_keyspace(mock::KeyspaceDef::simple("ks2", 1));
     let cluster = mock::MockCluster::start(spec).await.map_err(|e| format!("mock start: {e}"))?;
     let translator = Arc::new(SlowTranslator { delay_ms: std::sync::atomic::AtomicU64::new(0) });
     let session = Arc::new(
@@ -459,7 +481,49 @@ async fn run_e2e_once(serial: u64, rounds: usize, concurrent: usize, mode: u64) 
         };
         cluster.add_node(node).await.map_err(|e| format!("add_node: {e}"))?;
         let mut tasks = Vec::new();
-        if mode == 1 {
+        let fail_left = Arc::new(AtomicUsize::new(0));
+        if mode == 2 {
+            // failing fetch: the next 1..3 reads of system tables are answered with an error, or the (control)
+            // connection is cut 5 bytes into the reply; every requested refresh must still be answered
+            fail_left.store(r.range(1, 3) as usize, Ordering::SeqCst);
+            let cut = r.bool();
+            let left = fail_left.clone();
+            cluster.set_handler(Some(Arc::new(move |ctx: &mock::ReqCtx| {
+                if !ctx.is_system || !(ctx.opcode == mock::op::QUERY || ctx.opcode == mock::op::EXECUTE) {
+                    return None;
+                }
+                if left.fetch_update(Ordering::SeqCst, Ordering::SeqCst, |v| v.checked_sub(1)).is_err() {
+                    return None;
+                }
+                Some(if cut {
+                    vec![mock::Action::CutAt(5, mock::CutKind::Rst), mock::Action::Default]
+                } else {
+                    vec![mock::Action::Error(mock::ErrorSpec::new(mock::DbErr::ServerError, "scripted metadata failure"))]
+                })
+            })));
+        }
+        if mode == 3 {
+            // the select loop: use_keyspace requests and refresh requests interleaved while the cluster worker
+            // is busy applying an update (slow translator); each request of either kind must be answered once
+            translator.delay_ms.store(500, Ordering::SeqCst);
+            for k in 0..concurrent.max(4) {
+                let s = session.clone();
+                if k % 2 == 0 {
+                    tasks.push(tokio::spawn(async move {
+                        let r = tokio::time::timeout(Duration::from_secs(40), s.refresh_metadata()).await;
+                        (r, std::time::Instant::now())
+                    }));
+                } else {
+                    let ks = if k % 4 == 1 { "ks" } else { "ks2" };
+                    tasks.push(tokio::spawn(async move {
+                        let r = tokio::time::timeout(Duration::from_secs(40), s.use_keyspace(ks, false)).await;
+                        // same shape as a refresh outcome: answered? / ok?
+                        (r.map(|x| x.map_err(|_| scylla::errors::MetadataError::ConnectionPoolError(scylla::errors::ConnectionPoolError::Initializing))), std::time::Instant::now())
+                    }));
+                }
+                tokio::time::sleep(Duration::from_millis(if k == 0 { 120 } else { 30 })).await;
+            }
+        } else if mode == 1 {
             // busy consumer: the first refresh makes the cluster worker open the new node's pool, which now
             // takes >= 700 ms; while it waits, further refreshes are served back to back by the metadata
             // worker, so their full fetches (each with its own response channel) are MERGED in the slot.
@@ -499,12 +563,25 @@ async fn run_e2e_once(serial: u64, rounds: usize, concurrent: usize, mode: u64) 
         finished.sort();
         let together = finished.windows(2).filter(|w| w[1].duration_since(w[0]) < Duration::from_millis(5)).count();
         translator.delay_ms.store(0, Ordering::SeqCst);
+        let mut final_ok = 1;
+        if mode == 2 {
+            // the faults are over: one more refresh must succeed and publish the latest topology
+            let consumed = fail_left.load(Ordering::SeqCst) == 0;
+            cluster.set_handler(None);
+            match tokio::time::timeout(Duration::from_secs(40), session.refresh_metadata()).await {
+                Ok(Ok(())) => {}
+                _ => final_ok = 0,
+            }
+            if !consumed {
+                final_ok += 2; // diagnostic: not every scripted fault was consumed
+            }
+        }
         let seen = session.get_cluster_state().get_nodes_info().len();
         let mock_nodes = cluster.spec().nodes.len();
-        if completed != asked || ok != asked || seen != mock_nodes {
+        if completed != asked || (ok != asked && mode != 2) || seen != mock_nodes || final_ok & 1 == 0 {
             clean = false;
         }
-        toks.push(format!("{:x}/{:x}/{:x}/{:x}/{:x}/{:x}", asked, completed, ok, seen, mock_nodes, together));
+        toks.push(format!("{:x}/{:x}/{:x}/{:x}/{:x}/{:x}/{:x}", asked, completed, ok, seen, mock_nodes, together, final_ok));
     }
     drop(session);
     cluster.shutdown();
@@ -562,10 +639,14 @@ struct Gen {
     fut: bool,
     noops: u32,
     eager: bool,
+    tries: u32,
+    max_tries: u32,
+    clears: u32,
+    max_clears: u32,
 }
 impl Gen {
     fn new() -> Self {
-        Gen { sender: true, receiver: true, pending: false, fut: false, noops: 0, eager: false }
+        Gen { sender: true, receiver: true, pending: false, fut: false, noops: 0, eager: false, tries: 0, max_tries: 0, clears: 0, max_clears: 0 }
     }
     fn ops(&self, max_noops: u32) -> Vec<char> {
         let mut v = vec![];
@@ -574,11 +655,17 @@ impl Gen {
             if self.noops < max_noops {
                 v.push('N');
             }
+            if self.clears < self.max_clears {
+                v.push('K');
+            }
             v.push('D');
         }
         if self.receiver {
             v.push('P');
             v.push(if self.fut { 'C' } else { 'R' });
+            if !self.fut && self.tries < self.max_tries {
+                v.push('T');
+            }
         }
         v
     }
@@ -595,6 +682,12 @@ impl Gen {
                 }
             }
             'N' => self.noops += 1,
+            'K' => {
+                self.clears += 1;
+                if self.receiver {
+                    self.pending = false;
+                }
+            }
             'D' => {
                 self.sender = false;
                 if self.eager && self.fut {
@@ -611,6 +704,10 @@ impl Gen {
             }
             'C' => self.fut = false,
             'R' => self.receiver = false,
+            'T' => {
+                self.tries += 1;
+                self.pending = false;
+            }
             _ => {}
         }
     }
@@ -623,8 +720,8 @@ fn enumerate_kind(out: &mut Out, kind: &str, len: usize, max_noops: u32, min_noo
     fn rec(out: &mut Out, kind: &str, g: Gen, s: &mut String, len: usize, max_noops: u32, min_noops: u32, min_len: usize) {
         let ops = g.ops(max_noops);
         if s.len() == len || ops.is_empty() {
-            if g.noops >= min_noops && !s.is_empty() && s.len() >= min_len {
-                let c = format!("{} {}", kind, s);
+            if g.noops >= min_noops && !s.is_empty() && s.len() >= min_len && (kind != "XT" || g.tries > 0) && (!kind.ends_with('K') || g.clears > 0) {
+                let c = format!("{} {}", &kind[..1], s);
                 let o = run_case(&c);
                 out.case(&c, &o);
             }
@@ -641,6 +738,13 @@ fn enumerate_kind(out: &mut Out, kind: &str, len: usize, max_noops: u32, min_noo
     let mut s = String::new();
     let mut g = Gen::new();
     g.eager = kind == "Y";
+    if kind == "XT" {
+        g.max_tries = 3;
+    }
+    if kind == "XK" || kind == "YK" {
+        g.max_clears = 2;
+        g.eager = kind == "YK";
+    }
     rec(out, kind, g, &mut s, len, max_noops, min_noops, min_len);
 }
 
@@ -664,6 +768,11 @@ fn main() {
         enumerate(&mut out, 10, 99, 0, 0); // every script up to length 10
         enumerate(&mut out, 12, 0, 0, 11); // plus lengths 11 and 12 without the no-op closure
     }
+    // scripts with try_recv (1..3 of them, at most one no-op closure) up to length 9 / 11
+    enumerate_kind(&mut out, "XT", if thorough { 11 } else { 9 }, 1, 0, 0);
+    // scripts with 1..2 clearing closures (at most one no-op) up to length 9 / 11, plain and eager waker
+    enumerate_kind(&mut out, "XK", if thorough { 11 } else { 9 }, 1, 0, 0);
+    enumerate_kind(&mut out, "YK", if thorough { 10 } else { 8 }, 1, 0, 0);
     // the same with the eager waker (every script up to length 9 / 12 with at most one no-op)
     if thorough {
         enumerate_kind(&mut out, "Y", 12, 1, 0, 0);
@@ -716,6 +825,8 @@ fn main() {
     for _ in 0..a.n {
         let len = r.range(15, 60) as usize;
         let mut g = Gen::new();
+        g.max_tries = u32::MAX;
+        g.max_clears = u32::MAX;
         let mut s = String::new();
         // per-script bias so that some scripts are producer-heavy, some consumer-heavy
         let bias = r.below(3);
@@ -756,12 +867,17 @@ fn main() {
         out.case(&c, &o);
     }
     // end-to-end: requested metadata refreshes are answered and the published state is the latest topology
-    let z_cases: u64 = if thorough { 30 } else { 8 };
+    let z_cases: u64 = if thorough { 36 } else { 18 };
     for k in 0..z_cases {
         serial += 1;
-        // odd cases: busy-consumer scenario (mode 1) with 3..5 staged refreshes per round
-        let c = if k % 2 == 1 {
-            format!("Z {:x} {:x} {:x} 1", serial, 1 + k % 3, 3 + k % 3)
+        // k = 1 mod 3: busy-consumer scenario (mode 1) with 3..5 staged refreshes per round;
+        // k = 2 mod 3: failing fetches (mode 2)
+        let c = if k % 3 == 1 {
+            format!("Z {:x} {:x} {:x} 1", serial, 1 + k % 2, 3 + k % 3)
+        } else if k % 6 == 5 {
+            format!("Z {:x} {:x} {:x} 3", serial, 1 + (k / 6) % 2, 4 + 2 * ((k / 6) % 3))
+        } else if k % 3 == 2 {
+            format!("Z {:x} {:x} {:x} 2", serial, 2 + k % 2, [1u64, 3, 6][((k / 3) % 3) as usize])
         } else {
             format!("Z {:x} {:x} {:x} 0", serial, 3 + k % 4, [1u64, 4, 16][((k / 2) % 3) as usize])
         };
